@@ -26,9 +26,12 @@ Record cfg := mkCfg {
   c_addrs : list (addr * addr) }.   (* two source addresses per peer 1..n *)
 
 Definition addr0 := mkAddr 0 0 false true.
+(* connection index 2 is a LIMITED connection (the relay host reaches the peer through
+   another relay): its remote address is a /p2p-circuit address *)
+Definition addr_lim := mkAddr 0 0 true false.
 Definition addr_of (c : cfg) (p k : Z) : addr :=
   let pr := nth (Z.to_nat (p - 1)) (c_addrs c) (addr0, addr0) in
-  if k =? 0 then fst pr else snd pr.
+  if k =? 0 then fst pr else if k =? 2 then addr_lim else snd pr.
 
 (* status codes of pb.Status *)
 Definition ST_OK := 100. Definition ST_REFUSED := 200. Definition ST_RLE := 201.
@@ -336,8 +339,11 @@ Inductive op :=
 | OAdvance (dt : Z)
 | OCloseRelay.
 
-(* a peer has two connections: index 0 and (anything else =) 1 *)
-Definition nk (k : Z) : Z := if k =? 0 then 0 else 1.
+(* a peer has two direct connections, index 0 and 1 (anything else = 1), and possibly a
+   limited one, index 2.  Network().Connectedness(p) is Connected iff a direct connection is
+   open ([connected]); with only the limited one it is Limited: disconnected() then does NOT
+   return early and the reservation goes, handleReserve refuses. *)
+Definition nk (k : Z) : Z := if k =? 0 then 0 else if k =? 2 then 2 else 1.
 
 Definition apply_op (c : cfg) (s : st) (o : op) : st * list Z :=
   match o with
